@@ -32,7 +32,7 @@ GMag(cfg, i) == IF Hinge(cfg) THEN RMul(R(2), cfg.cw[i]) ELSE cfg.cw[i]
 AGrad(cfg, x) == [i \in 1..Dim(cfg) |-> RMul(cfg.cw[i], R(SignOf(RSub(x[i], cfg.at[i])) + (IF Hinge(cfg) THEN 1 ELSE 0)))]
 \* sqrt(vhat) must be rational for the exact oracle: it is looked up among multiples of the gradient magnitude and the
 \* state is marked inexact (and not expanded or emitted) when no candidate squares to vhat
-RootCands(cfg, i) == {RMul(GMag(cfg, i), k) : k \in {ROne, Norm(1, 2), Norm(1, 3), Norm(2, 3), Norm(3, 5)}}
+RootCands(cfg, i) == {RMul(GMag(cfg, i), k) : k \in {ROne, Norm(1, 2), Norm(1, 3), Norm(2, 3), Norm(3, 5), RZ}}     \* RZ: a coordinate that never saw a gradient
 HasRoot(cfg, i, vh) == \E r \in RootCands(cfg, i) : RSq(r) = vh
 RootOf(cfg, i, vh) == CHOOSE r \in RootCands(cfg, i) : RSq(r) = vh
 AdamStep(cfg, st) ==
@@ -45,5 +45,9 @@ AdamStep(cfg, st) ==
       ex == \A i \in 1..Dim(cfg) : HasRoot(cfg, i, vh[i])
       x2 == IF ex THEN [i \in 1..Dim(cfg) |-> RSub(st.x[i], RDiv(RMul(cfg.alpha, mh[i]), RAdd(RootOf(cfg, i, vh[i]), cfg.eps)))] ELSE st.x
   IN [t |-> t, x |-> x2, m |-> m2, v |-> v2, exact |-> ex, zero_grad |-> (\E i \in 1..Dim(cfg) : RIsZero(g[i])), converged |-> (ex /\ x2 = st.x)]
+\* closed form while no coordinate has crossed its kink: |g_i| = c_i at every step, so mhat_i = c_i sign, vhat_i = c_i^2 and every
+\* step moves coordinate i by alpha c_i / (c_i + eps) towards a_i
+AdamClosedForm(cfg, t) == [i \in 1..Dim(cfg) |-> RSub(cfg.x0[i], RMul(R(t * SignOf(RSub(cfg.x0[i], cfg.at[i]))), RDiv(RMul(cfg.alpha, cfg.cw[i]), RAdd(cfg.cw[i], cfg.eps))))]
+NoCrossingPossible(cfg, t) == \A i \in 1..Dim(cfg) : RLt(RMul(R(t), cfg.alpha), RAbsR(RSub(cfg.x0[i], cfg.at[i])))
 AdamInit(cfg) == [t |-> 0, x |-> cfg.x0, m |-> [i \in 1..Dim(cfg) |-> RZ], v |-> [i \in 1..Dim(cfg) |-> RZ], exact |-> TRUE, zero_grad |-> FALSE, converged |-> FALSE]
 =============================================================================
